@@ -543,6 +543,47 @@ class SBytesIO(_io.BytesIO):
         self._sxpos += len(r)
         return r
 
+    # readers the C code of the stdlib uses (TextIOWrapper, BytesParser,
+    # pickle ...): the content is made concrete first, by forking over every
+    # feasible value of at most 2 symbolic bytes (Unsupported beyond that)
+    def _sx_materialize(self):
+        if self._sx is None:
+            return
+        v = concretize_seq(self.getvalue(), 2)
+        self._sx = None
+        _io.BytesIO.seek(self, 0)
+        _io.BytesIO.truncate(self)
+        _io.BytesIO.write(self, v)
+        _io.BytesIO.seek(self, self._sxpos)
+
+    def read1(self, *a):
+        self._sx_materialize()
+        return _io.BytesIO.read1(self, *a)
+
+    def readinto(self, b):
+        self._sx_materialize()
+        return _io.BytesIO.readinto(self, b)
+
+    def readline(self, *a):
+        self._sx_materialize()
+        return _io.BytesIO.readline(self, *a)
+
+    def readlines(self, *a):
+        self._sx_materialize()
+        return _io.BytesIO.readlines(self, *a)
+
+    def __iter__(self):
+        self._sx_materialize()
+        return _io.BytesIO.__iter__(self)
+
+    def __next__(self):
+        self._sx_materialize()
+        return _io.BytesIO.__next__(self)
+
+    def getbuffer(self):
+        self._sx_materialize()
+        return _io.BytesIO.getbuffer(self)
+
 
 class SByteArray(object):
     """bytearray of fixed concrete length with possibly symbolic elements."""
